@@ -19,10 +19,10 @@ theorem good_bracket : Good '[' ']' := by constructor <;> decide
 
 def plainChar (o c ch : Char) : Prop := ch ≠ '"' ∧ ch ≠ o ∧ ch ≠ c ∧ ch ≠ ',' ∧ ch ≠ ' '
 
-/-- tokens the machine reads back verbatim -/
-inductive SafeTok (o c : Char) : Str → Prop
-  | bare (t : Str) (hne : t ≠ []) (h : ∀ ch ∈ t, plainChar o c ch) : SafeTok o c t
-  | quoted (b : Str) (h : ∀ ch ∈ b, ch ≠ '"') : SafeTok o c ('"' :: b ++ ['"'])
+/-- tokens the machine reads back verbatim: bare words and EVERY string literal the exporters write -/
+inductive SafeTok (q : Quoting) (o c : Char) : Str → Prop
+  | bare (t : Str) (hne : t ≠ []) (h : ∀ ch ∈ t, plainChar o c ch) : SafeTok q o c t
+  | quoted (v : Str) : SafeTok q o c (quoteStr q v)
 
 mutual
 def printTok (o c : Char) : TokTree → Str
@@ -35,145 +35,183 @@ def printToks (o c : Char) : List TokTree → Str
 end
 
 mutual
-def SafeTree (o c : Char) : TokTree → Prop
-  | .leaf t => SafeTok o c t
-  | .arr ts => SafeTrees o c ts
-def SafeTrees (o c : Char) : List TokTree → Prop
+def SafeTree (q : Quoting) (o c : Char) : TokTree → Prop
+  | .leaf t => SafeTok q o c t
+  | .arr ts => SafeTrees q o c ts
+def SafeTrees (q : Quoting) (o c : Char) : List TokTree → Prop
   | [] => True
-  | t :: ts => SafeTree o c t ∧ SafeTrees o c ts
+  | t :: ts => SafeTree q o c t ∧ SafeTrees q o c ts
 end
 
 /-- `s1` is not failed, not inside a string, and closing its token gives `tgt` -/
-def Lands (s1 tgt : MSt) : Prop := s1.bad = false ∧ s1.mode ≠ .inStr ∧ s1.flush = tgt
+def Lands (s1 tgt : MSt) : Prop := s1.bad = false ∧ (s1.mode = .bare ∨ s1.mode = .strDone) ∧ s1.flush = tgt
 
-theorem mrun_append (o c : Char) (s : MSt) (a b : Str) :
-    mrun o c s (a ++ b) = mrun o c (mrun o c s a) b := by
+theorem mrun_append (q : Quoting) (o c : Char) (s : MSt) (a b : Str) :
+    mrun q o c s (a ++ b) = mrun q o c (mrun q o c s a) b := by
   simp [mrun, List.foldl_append]
 
-theorem mrun_cons (o c : Char) (s : MSt) (a : Char) (b : Str) :
-    mrun o c s (a :: b) = mrun o c (mstep o c s a) b := rfl
+theorem mrun_cons (q : Quoting) (o c : Char) (s : MSt) (a : Char) (b : Str) :
+    mrun q o c s (a :: b) = mrun q o c (mstep q o c s a) b := rfl
 
-theorem mrun_nil (o c : Char) (s : MSt) : mrun o c s [] = s := rfl
+theorem mrun_nil (q : Quoting) (o c : Char) (s : MSt) : mrun q o c s [] = s := rfl
 
 /-- plain characters pile up in the pending token -/
-theorem run_plain (o c : Char) : ∀ (l : Str) (st : List (List TokTree)) (tok : Str),
+theorem run_plain (q : Quoting) (o c : Char) : ∀ (l : Str) (st : List (List TokTree)) (tok : Str),
     (∀ ch ∈ l, plainChar o c ch) →
-    mrun o c ⟨st, tok, .bare, false⟩ l = ⟨st, l.reverse ++ tok, .bare, false⟩
+    mrun q o c ⟨st, tok, .bare, false⟩ l = ⟨st, l.reverse ++ tok, .bare, false⟩
   | [], st, tok, _ => by simp [mrun]
   | ch :: l, st, tok, h => by
     have hc : plainChar o c ch := h ch (by simp)
     obtain ⟨h1, h2, h3, h4, h5⟩ := hc
     rw [mrun_cons]
-    have : mstep o c ⟨st, tok, .bare, false⟩ ch = ⟨st, ch :: tok, .bare, false⟩ := by
+    have : mstep q o c ⟨st, tok, .bare, false⟩ ch = ⟨st, ch :: tok, .bare, false⟩ := by
       simp [mstep, h1, h2, h3, h4, h5]
-    rw [this, run_plain o c l st (ch :: tok) (fun x hx => h x (by simp [hx]))]
+    rw [this, run_plain q o c l st (ch :: tok) (fun x hx => h x (by simp [hx]))]
     simp
 
-/-- inside a string every non-quote character is kept -/
-theorem run_instr (o c : Char) : ∀ (l : Str) (st : List (List TokTree)) (tok : Str),
-    (∀ ch ∈ l, ch ≠ '"') →
-    mrun o c ⟨st, tok, .inStr, false⟩ l = ⟨st, l.reverse ++ tok, .inStr, false⟩
-  | [], st, tok, _ => by simp [mrun]
-  | ch :: l, st, tok, h => by
-    have hc : ch ≠ '"' := h ch (by simp)
-    rw [mrun_cons]
-    have : mstep o c ⟨st, tok, .inStr, false⟩ ch = ⟨st, ch :: tok, .inStr, false⟩ := by
-      simp [mstep, hc]
-    rw [this, run_instr o c l st (ch :: tok) (fun x hx => h x (by simp [hx]))]
+/-! ### string-literal bodies, character by character -/
+
+/-- what one character of the value becomes inside the literal -/
+def escChar (q : Quoting) (ch : Char) : Str :=
+  match q with
+  | .backslash => if ch = '\\' then ['\\', '\\'] else if ch = '"' then ['\\', '"'] else [ch]
+  | .doubled => if ch = '"' then ['"', '"'] else [ch]
+
+theorem replaceChar_nil (c : Char) (r : Str) : replaceChar c r [] = [] := rfl
+
+theorem replaceChar_cons (c : Char) (r : Str) (x : Char) (s : Str) :
+    replaceChar c r (x :: s) = (if x = c then r else [x]) ++ replaceChar c r s := by
+  simp [replaceChar]
+
+theorem replaceChar_append (c : Char) (r : Str) (a b : Str) :
+    replaceChar c r (a ++ b) = replaceChar c r a ++ replaceChar c r b := by
+  simp [replaceChar]
+
+/-- the two sequential `str.replace` calls act character by character -/
+theorem escStr_cons (q : Quoting) (ch : Char) (v : Str) : escStr q (ch :: v) = escChar q ch ++ escStr q v := by
+  cases q with
+  | backslash =>
+    by_cases h1 : ch = '\\'
+    · subst h1; simp [escStr, escChar, replaceChar_cons]
+    · by_cases h2 : ch = '"'
+      · subst h2; simp [escStr, escChar, replaceChar_cons]
+      · simp [escStr, escChar, replaceChar_cons, h1, h2]
+  | doubled =>
+    by_cases h2 : ch = '"'
+    · subst h2; simp [escStr, escChar, replaceChar_cons]
+    · simp [escStr, escChar, replaceChar_cons, h2]
+
+theorem escStr_nil (q : Quoting) : escStr q [] = [] := by cases q <;> rfl
+
+/-- inside a literal the body of `escStr q v` is consumed and leaves the machine inside the literal -/
+theorem run_instr (q : Quoting) (o c : Char) : ∀ (v : Str) (st : List (List TokTree)) (tok : Str),
+    mrun q o c ⟨st, tok, .inStr, false⟩ (escStr q v) = ⟨st, (escStr q v).reverse ++ tok, .inStr, false⟩
+  | [], st, tok => by simp [escStr_nil, mrun_nil]
+  | ch :: v, st, tok => by
+    rw [escStr_cons, mrun_append]
+    have key : mrun q o c ⟨st, tok, .inStr, false⟩ (escChar q ch) =
+        ⟨st, (escChar q ch).reverse ++ tok, .inStr, false⟩ := by
+      cases q with
+      | backslash =>
+        by_cases h1 : ch = '\\'
+        · subst h1; simp [escChar, mrun, mstep]
+        · by_cases h2 : ch = '"'
+          · subst h2; simp [escChar, mrun, mstep]
+          · simp [escChar, mrun, mstep, h1, h2]
+      | doubled =>
+        by_cases h2 : ch = '"'
+        · subst h2; simp [escChar, mrun, mstep]
+        · simp [escChar, mrun, mstep, h2]
+    rw [key, run_instr q o c v st _]
     simp
 
-theorem lands_tok (o c : Char) (t : Str) (ht : SafeTok o c t) (f : List TokTree)
+theorem lands_tok (q : Quoting) (o c : Char) (t : Str) (ht : SafeTok q o c t) (f : List TokTree)
     (rest : List (List TokTree)) :
-    Lands (mrun o c ⟨f :: rest, [], .bare, false⟩ t) ⟨(Tree.leaf t :: f) :: rest, [], .bare, false⟩ := by
+    Lands (mrun q o c ⟨f :: rest, [], .bare, false⟩ t) ⟨(Tree.leaf t :: f) :: rest, [], .bare, false⟩ := by
   cases ht with
   | bare _ hne h =>
-    rw [run_plain o c t _ _ h]
+    rw [run_plain q o c t _ _ h]
     refine ⟨rfl, by simp, ?_⟩
     cases hr : t.reverse with
     | nil => simp at hr; exact absurd hr hne
     | cons x xs =>
       have : t = (x :: xs).reverse := by rw [← hr]; simp
       simp [MSt.flush, this]
-  | quoted b h =>
+  | quoted v =>
+    unfold quoteStr
     rw [List.cons_append, mrun_cons]
-    have h1 : mstep o c ⟨f :: rest, [], .bare, false⟩ '"' = ⟨f :: rest, ['"'], .inStr, false⟩ := by
+    have h1 : mstep q o c ⟨f :: rest, [], .bare, false⟩ '"' = ⟨f :: rest, ['"'], .inStr, false⟩ := by
       simp [mstep]
-    rw [h1, mrun_append, run_instr o c b _ _ h, mrun_cons, mrun_nil]
-    have h2 : mstep o c ⟨f :: rest, b.reverse ++ ['"'], .inStr, false⟩ '"' =
-        ⟨f :: rest, '"' :: (b.reverse ++ ['"']), .strDone, false⟩ := by
+    rw [h1, mrun_append, run_instr q o c v _ _, mrun_cons, mrun_nil]
+    have h2 : mstep q o c ⟨f :: rest, (escStr q v).reverse ++ ['"'], .inStr, false⟩ '"' =
+        ⟨f :: rest, '"' :: ((escStr q v).reverse ++ ['"']), .strDone, false⟩ := by
       simp [mstep]
     rw [h2]
     refine ⟨rfl, by simp, ?_⟩
     simp [MSt.flush]
 
-theorem step_sep (o c : Char) (g : Good o c) (s1 tgt : MSt) (h : Lands s1 tgt) (ch : Char)
-    (hch : ch = ',' ∨ ch = ' ') : mstep o c s1 ch = tgt := by
+theorem step_sep (q : Quoting) (o c : Char) (g : Good o c) (s1 tgt : MSt) (h : Lands s1 tgt) (ch : Char)
+    (hch : ch = ',' ∨ ch = ' ') : mstep q o c s1 ch = tgt := by
   obtain ⟨hb, hm, hf⟩ := h
   have hq : ch ≠ '"' := by rcases hch with e | e <;> (subst e; decide)
   have ho : ch ≠ o := by rcases hch with e | e <;> (subst e; intro e2; first | exact g.oc e2.symm | exact g.os e2.symm)
   have hc : ch ≠ c := by rcases hch with e | e <;> (subst e; intro e2; first | exact g.cc e2.symm | exact g.cs e2.symm)
   unfold mstep
   simp only [hb]
-  cases hmode : s1.mode with
-  | inStr => exact absurd hmode hm
-  | bare => simp [hq, ho, hc, hch, hf]
-  | strDone => simp [hq, ho, hc, hch, hf]
+  rcases hm with hmode | hmode <;> simp [hmode, hq, ho, hc, hch, hf]
 
-theorem step_open (o c : Char) (g : Good o c) (st : List (List TokTree)) :
-    mstep o c ⟨st, [], .bare, false⟩ o = ⟨[] :: st, [], .bare, false⟩ := by
+theorem step_open (q : Quoting) (o c : Char) (g : Good o c) (st : List (List TokTree)) :
+    mstep q o c ⟨st, [], .bare, false⟩ o = ⟨[] :: st, [], .bare, false⟩ := by
   have := g.oq
   simp [mstep, this, MSt.flush]
 
-theorem step_close (o c : Char) (g : Good o c) (s1 : MSt) (f' g' : List TokTree)
+theorem step_close (q : Quoting) (o c : Char) (g : Good o c) (s1 : MSt) (f' g' : List TokTree)
     (rest : List (List TokTree)) (h : Lands s1 ⟨f' :: g' :: rest, [], .bare, false⟩) :
-    mstep o c s1 c = ⟨(Tree.arr f'.reverse :: g') :: rest, [], .bare, false⟩ := by
+    mstep q o c s1 c = ⟨(Tree.arr f'.reverse :: g') :: rest, [], .bare, false⟩ := by
   obtain ⟨hb, hm, hf⟩ := h
   have hq := g.cq
   have ho : c ≠ o := fun e => g.ne e.symm
   unfold mstep
   simp only [hb]
-  cases hmode : s1.mode with
-  | inStr => exact absurd hmode hm
-  | bare => simp [hq, ho, hf]
-  | strDone => simp [hq, ho, hf]
+  rcases hm with hmode | hmode <;> simp [hmode, hq, ho, hf]
 
 theorem lands_clean (st : List (List TokTree)) : Lands ⟨st, [], .bare, false⟩ ⟨st, [], .bare, false⟩ :=
   ⟨rfl, by simp, by simp [MSt.flush]⟩
 
 mutual
 /-- printing a safe tree and running the machine over it appends that tree to the open frame -/
-theorem lands_tree (o c : Char) (g : Good o c) : (t : TokTree) → SafeTree o c t →
+theorem lands_tree (q : Quoting) (o c : Char) (g : Good o c) : (t : TokTree) → SafeTree q o c t →
     ∀ (f : List TokTree) (rest : List (List TokTree)),
-    Lands (mrun o c ⟨f :: rest, [], .bare, false⟩ (printTok o c t)) ⟨(t :: f) :: rest, [], .bare, false⟩
+    Lands (mrun q o c ⟨f :: rest, [], .bare, false⟩ (printTok o c t)) ⟨(t :: f) :: rest, [], .bare, false⟩
   | .leaf t, h, f, rest => by
     simp only [printTok]
-    exact lands_tok o c t (by simpa [SafeTree] using h) f rest
+    exact lands_tok q o c t (by simpa [SafeTree] using h) f rest
   | .arr ts, h, f, rest => by
     simp only [printTok, List.cons_append, List.nil_append]
-    rw [mrun_cons, step_open o c g, mrun_append, mrun_cons, mrun_nil]
-    have h2 := lands_trees o c g ts (by simpa [SafeTree] using h) [] (f :: rest)
-    rw [step_close o c g _ (ts.reverse ++ []) f rest h2]
+    rw [mrun_cons, step_open q o c g, mrun_append, mrun_cons, mrun_nil]
+    have h2 := lands_trees q o c g ts (by simpa [SafeTree] using h) [] (f :: rest)
+    rw [step_close q o c g _ (ts.reverse ++ []) f rest h2]
     simpa using lands_clean ((Tree.arr ts :: f) :: rest)
-theorem lands_trees (o c : Char) (g : Good o c) : (ts : List TokTree) → SafeTrees o c ts →
+theorem lands_trees (q : Quoting) (o c : Char) (g : Good o c) : (ts : List TokTree) → SafeTrees q o c ts →
     ∀ (f : List TokTree) (rest : List (List TokTree)),
-    Lands (mrun o c ⟨f :: rest, [], .bare, false⟩ (printToks o c ts)) ⟨(ts.reverse ++ f) :: rest, [], .bare, false⟩
+    Lands (mrun q o c ⟨f :: rest, [], .bare, false⟩ (printToks o c ts)) ⟨(ts.reverse ++ f) :: rest, [], .bare, false⟩
   | [], _, f, rest => by simpa [printToks, mrun_nil] using lands_clean (f :: rest)
   | [t], h, f, rest => by
     simp only [printToks]
-    simpa using lands_tree o c g t (by simpa [SafeTrees] using h.1) f rest
+    simpa using lands_tree q o c g t (by simpa [SafeTrees] using h.1) f rest
   | t :: u :: r, h, f, rest => by
     simp only [printToks]
-    have h1 := lands_tree o c g t h.1 f rest
-    rw [mrun_append, mrun_append, mrun_cons, step_sep o c g _ _ h1 ',' (Or.inl rfl), mrun_cons,
-      step_sep o c g _ _ (lands_clean _) ' ' (Or.inr rfl), mrun_nil]
-    have h2 := lands_trees o c g (u :: r) h.2 (t :: f) rest
+    have h1 := lands_tree q o c g t h.1 f rest
+    rw [mrun_append, mrun_append, mrun_cons, step_sep q o c g _ _ h1 ',' (Or.inl rfl), mrun_cons,
+      step_sep q o c g _ _ (lands_clean _) ' ' (Or.inr rfl), mrun_nil]
+    have h2 := lands_trees q o c g (u :: r) h.2 (t :: f) rest
     simpa using h2
 end
 
 /-- **the machine inverts the printer** -/
-theorem parseInit_printTok (o c : Char) (g : Good o c) (t : TokTree) (h : SafeTree o c t) :
-    parseInit o c (printTok o c t) = some t := by
-  obtain ⟨hb, hm, hf⟩ := lands_tree o c g t h [] []
+theorem parseInit_printTok (q : Quoting) (o c : Char) (g : Good o c) (t : TokTree) (h : SafeTree q o c t) :
+    parseInit q o c (printTok o c t) = some t := by
+  obtain ⟨hb, hm, hf⟩ := lands_tree q o c g t h [] []
   simp [parseInit, parseItems, MSt.init, hf]
 
 end SciVerif.C19
